@@ -348,6 +348,11 @@ func vfH_C10_dispatch() {
 			}
 		}
 		raw = vfFrame(4, 0, 0, p)
+		// an arbitrary valid pre-state: the frame size the endpoint announced earlier on this connection
+		earlier := vfrt.Uint32("max-frame-size-announced-earlier")
+		vfrt.Assume(earlier >= 16384)
+		vfrt.Assume(earlier <= 16777215)
+		peer.maxFrameSize = earlier
 	case 5:
 		raw = vfFrame(4, 1, 0, nil)
 	case 6:
